@@ -47,7 +47,11 @@ def random_tree(r, depth, names):
         k = r.random()
         if k < 0.35:
             continue
-        if k < 0.7 or depth == 0:
+        if k < 0.42:
+            # a symbolic link that does not resolve (dangling, self-referential, or valid only through the directory's
+            # old name): still an entry of the directory, so it gets its event like any file
+            t[n] = r.choice(["L:nowhere", "L:" + n, "L:../s/gone", "L:/nonexistent-wdverif/x"])
+        elif k < 0.7 or depth == 0:
             t[n] = None
         else:
             t[n] = random_tree(r, depth - 1, names)
@@ -60,6 +64,8 @@ def build(path, tree):
         p = os.path.join(path, n)
         if sub is None:
             open(p, "w").close()
+        elif isinstance(sub, str):
+            os.symlink(sub[2:], p)
         else:
             build(p, sub)
 
@@ -79,7 +85,7 @@ def serialise(path):
 
 
 def count(tree):
-    return sum(1 + (count(s) if s is not None else 0) for s in tree.values())
+    return sum(1 + (count(s) if isinstance(s, dict) else 0) for s in tree.values())
 
 
 def show(events, kind):
@@ -125,6 +131,7 @@ def run(res, tier, lean, proof_breaks=(), build_log=""):
             cur = cur[comp]
         cur["f"] = None
         trees.append(nested)
+        trees.append({"a": None, "l1": "L:nowhere", "s": {"loop": "L:loop", "via_old": "L:../../s/s/f", "f": None, "dd": {"l2": "L:gone"}}})
         for i, tree in enumerate(trees):
             if os.path.exists("d"):
                 shutil.rmtree("d")
